@@ -371,6 +371,25 @@ def run_serialize_op(ser, op, cfg=None):
         # serialize() is a generator: with take == 0 its body never ran, so
         # .errors still describes the previous call by design of the API
         errs = tuple(ser.errors) if take != 0 else ("not-started",)
+        if op.get("alt") and take is None and cfg is not None:
+            # two lazy results of ONE serializer consumed a chunk at a time in turns (a streaming response and a fragment
+            # rendered meanwhile), both with the same output encoding: each must be what a brand-new serializer gives for
+            # it alone - no state of one document in the output for the other
+            p2 = new_parser({"builder": op["builder"], "ns": True, "strict": False})
+            tree2 = p2.parse("".join(op["alt"]))
+            sep = b"" if op.get("encoding") else ""
+            g1 = ser.serialize(walker(tree), op.get("encoding"))
+            g2 = ser.serialize(walker(tree2), op.get("encoding"))
+            parts1, parts2 = [], []
+            live = [(g1, parts1), (g2, parts2)]
+            while live:
+                for item in list(live):
+                    try:
+                        item[1].append(next(item[0]))
+                    except StopIteration:
+                        live.remove(item)
+            ref2 = sep.join(new_serializer(cfg).serialize(walker(tree2), op.get("encoding")))
+            return ("ok", joined, errs, take, (sep.join(parts1) == joined and sep.join(parts2) == ref2), sep.join(parts1) + sep.join(parts2))
         if op.get("reser") and take is None and cfg is not None:
             # the application edits the document and renders it again with the SAME serializer and the SAME walker object
             # (`stream` is re-iterable); a brand-new serializer with a brand-new walker over the edited tree is the reference
@@ -875,6 +894,9 @@ def gen_history(rng, stream):
                 op["reser"] = True       # the tree is edited and rendered again with the same serializer and walker object
             elif rng.random() < 0.25:
                 op["defer"] = True       # the generator is created now and consumed after the next call on this serializer
+            elif rng.random() < 0.3:
+                # a second document rendered by the same serializer, chunk by chunk in turns with this one
+                op["alt"] = [rng.choice(rng.choice(SER_TWIN_FAMILIES))] if rng.random() < 0.6 else list(rng.choice(SER_DOCS))
             ops.append(op)
             pending_observer = None
             continue
@@ -1219,11 +1241,16 @@ def execute(case):
             if out[0] == "ok" and out[3] is not None:
                 f["serializer_generator_abandoned"] = f.get("serializer_generator_abandoned", 0) + 1
             if out[0] == "ok" and len(out) == 6:
-                P["rendered_again_after_tree_edit"] += 1
+                P["rendered_again_after_tree_edit" if op.get("reser") else "two_generators_stepped_in_turns"] += 1
                 if out[4] is not True:
-                    failure = ("reuse", "op %d (serialize on object %d): after the caller edited the tree, the same serializer with the "
-                               "same walker object renders %s - a brand-new serializer with a brand-new walker renders the edited tree "
-                               "differently" % (i, oi, brief(out[5], 200)))
+                    if op.get("alt"):
+                        failure = ("reuse", "op %d (serialize on object %d): two results of the same serializer (same encoding) consumed a "
+                                   "chunk at a time in turns give %s - each alone on a brand-new serializer gives something else"
+                                   % (i, oi, brief(out[5], 200)))
+                    else:
+                        failure = ("reuse", "op %d (serialize on object %d): after the caller edited the tree, the same serializer with the "
+                                   "same walker object renders %s - a brand-new serializer with a brand-new walker renders the edited tree "
+                                   "differently" % (i, oi, brief(out[5], 200)))
                     break
         # ---- oracle: reused == fresh
         if op.get("stack") is not None:
@@ -1472,6 +1499,8 @@ def _simpler_ops(op):
         yield {k: v for k, v in op.items() if k != "reser"}
     if op.get("defer"):
         yield {k: v for k, v in op.items() if k != "defer"}
+    if op.get("alt"):
+        yield {k: v for k, v in op.items() if k != "alt"}
     if op.get("filters"):
         for k in range(len(op["filters"])):
             yield dict(op, filters=op["filters"][:k] + op["filters"][k + 1:])
